@@ -269,6 +269,7 @@ pub struct Env {
     pub focus: Vec<&'static str>,
     pub desynced: bool,
     pub ext: bool,
+    pub fail_all_next: bool,
     pub step_props: std::cell::RefCell<Vec<String>>,
 }
 
@@ -443,6 +444,7 @@ pub fn new_env(kind: Kind, r: &mut Rng, nframes: usize) -> Env {
         focus: Vec::new(),
         desynced: false,
         ext: false,
+        fail_all_next: false,
         step_props: std::cell::RefCell::new(Vec::new()),
     }
 }
@@ -841,7 +843,7 @@ fn step_synced(env: &mut Env, op: &Op, fail: Fail, rep: &mut Report, r: &mut Rng
     st.begin_call();
     let avail = st.free_count();
     st.fail_at = fail.at;
-    st.fail_all = false;
+    st.fail_all = env.fail_all_next;
     let pre_snap = if mon.bytediff { Some(st.snapshot()) } else { None };
     let root = env.arena.root_phys();
     let is_clean = matches!(op, Op::CleanUp | Op::CleanRange { .. });
@@ -1482,6 +1484,20 @@ pub fn run_history_ext(kind: Kind, r: &mut Rng, rep: &mut Report, focus: &str, l
                     rep.class(&format!("{}|{}|fail-request-{}-of-{}", kind.name(), op.name(), j, k));
                     restore(&mut env, saved);
                 }
+                // "or all": every request of the call fails (a mapper that went on after the first failure would be
+                // seen asking again)
+                {
+                    let saved = save(&env);
+                    env.fail_all_next = true;
+                    let res = step(&mut env, &op, Fail { at: Some(1) }, rep, r, mon);
+                    env.fail_all_next = false;
+                    rep.count("failure_points_enumerated", 1);
+                    if !matches!(res.out, Out::MapErr(ref e) if e == "FrameAllocationFailed") && !res.violated {
+                        viol(rep, &env, "C02", format!("{}|{}|injected-allocation-failure-not-reported", kind.name(), op.name()), &op, vec![("fail_request", J::s("all")), ("got", J::s(res.out.short()))]);
+                    }
+                    rep.class(&format!("{}|{}|fail-all-of-{}", kind.name(), op.name(), k));
+                    restore(&mut env, saved);
+                }
             }
         }
         let res = step(&mut env, &op, Fail::none(), rep, r, mon);
@@ -1529,7 +1545,7 @@ pub fn run(a: &Args, rep: &mut Report, focus: &str) {
     crate::trapemu::install();
     let mut r = Rng::derive(a.seed, &format!("paging-{}", focus), a.shard);
     let under_miri = cfg!(miri);
-    let histories = if under_miri { a.get_u64("histories", 2) } else { a.budget(if focus == "c02" { 250 } else { 500 }, if focus == "c02" { 120_000 } else { 250_000 }) };
+    let histories = if under_miri { a.get_u64("histories", 2) } else { a.budget(if focus == "c02" { 600 } else { 1500 }, if focus == "c02" { 120_000 } else { 250_000 }) };
     let kinds: Vec<Kind> = match a.get("impl") {
         Some("mapped") => vec![Kind::Mapped],
         Some("offset") => vec![Kind::Offset],
